@@ -155,11 +155,9 @@ class ProgramRun:
         return os.path.join(os.path.realpath(self.sandbox_roots[0]), 'act')
 
 
-def run_main_program(text: str, recorder: Recorder, dirs_in_act=()) -> ProgramRun:
-    """Writes `text` to a test-case file in a fresh scratch directory and runs the REAL main program on
-    it, in process.  `dirs_in_act`: directories (relative to the act directory) created by the sandbox
-    resolver stand-in... no: they are created by the harness right after the resolver made the root
-    (the act directory itself is made by exactly_lib; os.makedirs(exist_ok) keeps that working)."""
+def run_main_program(text: str, recorder: Recorder, files_in_home=()) -> ProgramRun:
+    """Writes `text` to a test-case file in a fresh scratch directory (the home directory of the case,
+    with the files `files_in_home`: (name, contents)) and runs the REAL main program on it, in process."""
     from exactly_lib.util.file_utils.std import StdOutputFiles
     run = ProgramRun()
     work = scratch.new_dir('c11')
@@ -168,6 +166,9 @@ def run_main_program(text: str, recorder: Recorder, dirs_in_act=()) -> ProgramRu
     path = os.path.join(case_dir, 't.case')
     with open(path, 'w') as f:
         f.write(text)
+    for name, contents in files_in_home:
+        with open(os.path.join(case_dir, name), 'w') as f:
+            f.write(contents)
 
     def resolver() -> str:
         p = os.path.join(work, 'sandbox-%d' % (len(run.sandbox_roots) + 1))
